@@ -407,6 +407,33 @@ def scribble(x):
 NTYPES = {'i64': np.int64, 'i32': np.int32, 'i16': np.int16}
 
 
+def pristine_batch(jobs):
+    """Single requests [(tree, n)] computed in ONE fresh interpreter that builds nothing but these trees: the
+    references of the second objects of all twin cases (no first object ever existed in that interpreter)."""
+    import io
+    import json
+    import os
+    import subprocess
+    import sys
+    code = ('import sys, json, io, numpy as np\n'
+            'sys.path.insert(0, sys.argv[1])\n'
+            'from harness import stim_common as S\n'
+            'out = {}\n'
+            'for i, (tree, n) in enumerate(json.load(sys.stdin)):\n'
+            '    try:\n'
+            '        out[str(i)] = np.asarray(S.build_real(tree).next(n), dtype=np.float64)\n'
+            '    except (ValueError, ZeroDivisionError) as e:\n'
+            '        out[str(i)] = np.array(type(e).__name__)\n'
+            'buf = io.BytesIO(); np.savez(buf, **out); sys.stdout.buffer.write(buf.getvalue())\n')
+    env = dict(os.environ, PSI_REPO=C.REPO, PYTHONDONTWRITEBYTECODE='1')
+    r = subprocess.run([sys.executable, '-c', code, C.VERIF], input=json.dumps(jobs).encode(), capture_output=True,
+                       env=env, timeout=600)
+    if r.returncode != 0:
+        raise RuntimeError('reference interpreter failed: ' + r.stderr.decode()[-300:])
+    z = np.load(io.BytesIO(r.stdout))
+    return [z[str(i)] for i in range(len(jobs))]
+
+
 def pristine_draw(tree, n):
     """One single request for n samples, computed in a fresh interpreter (no module-level state of this
     process can have leaked into it)."""
@@ -463,6 +490,7 @@ class C01(Spec):
         self.cache = S.ModelCache('stim')
         self._calls = 0
         self._last = None
+        self.twin_ref = {}
 
     # ---- cases -----------------------------------------------------------------------
     def gen_cases(self, rng, tier):
@@ -758,6 +786,13 @@ class C01(Spec):
             self.cache.fill(allc + self.corpus(), self.model_lines)
         except Exception:
             pass                      # driver unavailable: impl_lines falls back / reports
+        tw = [c for c in allc if c['kind'] == 'factory' and c.get('twin') and c['twin']['tree'] != c['tree']]
+        try:
+            refs = pristine_batch([(c['twin']['tree'], sum(c['twin']['chunks'])) for c in tw]) if tw else []
+            for c, a in zip(tw, refs):
+                self.twin_ref[C.case_hash(c)] = a
+        except Exception:
+            pass                      # no reference interpreter: the in-process reference is used
         yield from allc
 
     # ---- lines -------------------------------------------------------------------------
@@ -987,6 +1022,7 @@ class C01(Spec):
                 return []
             mout = self.model_out(c, ml)
             plan = S.Plan(c['tree'])
+            plan.hint = max(sum(h) for h in self.histories(c))
             tol = self.tol(c)
             scale = 1.0
             if tol:
@@ -1047,7 +1083,8 @@ class C01(Spec):
                             f'at sample {S.first_diff(full, ref)}')
             for h, run in zip(hs, runs):
                 if isinstance(run, str) or any(isinstance(x, str) for x in run):
-                    return f'chunks {h}: raised {run if isinstance(run, str) else run[-1]} but a single request for {sum(h)} samples is served'
+                    err = run if isinstance(run, str) else next(x for x in run if isinstance(x, str))
+                    return f'chunks {h}: raised {err} but a single request for {sum(h)} samples is served'
                 if not h:
                     continue            # nothing drawn between two resets
                 got = np.concatenate(run) if run else np.zeros(0)
@@ -1084,9 +1121,14 @@ class C01(Spec):
         h = list(tw['chunks'])
         n = sum(h)
         try:
-            want = pristine_draw(tw['tree'], n) if c.get('pristine') else np.array(S.build_real(tw['tree']).next(n))
+            want = self.twin_ref.get(C.case_hash(c))
+            if want is None:
+                want = pristine_draw(tw['tree'], n) if c.get('pristine') else np.array(S.build_real(tw['tree']).next(n))
+            elif want.ndim == 0:
+                raise ValueError(str(want))
         except self.ERRS as e:
-            return None if isinstance(run, str) else f'second object: single request raises {type(e).__name__} but chunks are served'
+            refused = isinstance(run, str) or (len(run) > 0 and all(isinstance(x, str) for x in run))
+            return None if refused else f'second object: single request raises {type(e).__name__} but chunks are served'
         if isinstance(run, str) or any(isinstance(x, str) for x in run):
             return f'second object: chunks {h} raised but a single request for {n} samples is served'
         got = np.concatenate(run) if run else np.zeros(0)
